@@ -24,14 +24,14 @@ package gmars
 //@   panics [C04]
 //@   requires s != nil && s.readLimit >= 1
 //@   modifies nothing
-//@   ensures [C01] s.readLimit <= s.m ==> result == fold(pointer, s.readLimit, s.m)
+//@   ensures [C01][C12] s.readLimit <= s.m ==> result == fold(pointer, s.readLimit, s.m)
 //@   ensures [C11] s.readLimit <= s.m ==> result < s.m && (result <= s.readLimit / 2 || s.m - result <= s.readLimit / 2)
 
 //@ func (*reportSim).writeFold
 //@   panics [C04]
 //@   requires s != nil && s.writeLimit >= 1
 //@   modifies nothing
-//@   ensures [C01] s.writeLimit <= s.m ==> result == fold(pointer, s.writeLimit, s.m)
+//@   ensures [C01][C12] s.writeLimit <= s.m ==> result == fold(pointer, s.writeLimit, s.m)
 //@   ensures [C11] s.writeLimit <= s.m ==> result < s.m && (result <= s.writeLimit / 2 || s.m - result <= s.writeLimit / 2)
 
 // ---------------------------------------------------------------------------
@@ -52,8 +52,8 @@ package gmars
 //@   ensures [C04] old(q.length) >= q.size ==> q.length == old(q.length) && q.end == old(q.end) && q.queue[q.end] == old(q.queue[q.end])
 //@   ensures [C04] old(q.length) < q.size ==> q.length == old(q.length) + 1 && q.end == (old(q.end) + 1) % q.size && q.queue[old(q.end)] == a
 // abstract (sequence) view
-//@   ensures [C01][C02] old(q.length) >= q.size ==> qLen(q) == old(qLen(q)) && (forall i :: 0 <= i && i < qLen(q) ==> qAt(q, i) == old(qAt(q, i)))
-//@   ensures [C01][C02] old(q.length) < q.size ==> qLen(q) == old(qLen(q)) + 1 && qAt(q, old(qLen(q))) == a
+//@   ensures [C01][C02][C12] old(q.length) >= q.size ==> qLen(q) == old(qLen(q)) && (forall i :: 0 <= i && i < qLen(q) ==> qAt(q, i) == old(qAt(q, i)))
+//@   ensures [C01][C02][C12] old(q.length) < q.size ==> qLen(q) == old(qLen(q)) + 1 && qAt(q, old(qLen(q))) == a
 //@      && (forall i :: 0 <= i && i < old(qLen(q)) ==> qAt(q, i) == old(qAt(q, i)))
 
 //@ func (*processQueue).Pop
@@ -167,7 +167,7 @@ package gmars
 //@   ensures [C04] qStep(w.pq, s.m)
 //@   ensures qPushed(w.pq, (PC + 1) % s.m)
 //@   ensures [C04] wfI(IRA, s.m) && wfI(old(s.mem[WAB]), s.m) ==> wfI(s.mem[WAB], s.m)
-//@   ensures [C01] IR.OpMode <= 6 ==> s.mem[WAB] == movSpec(IR.OpMode, old(s.mem[WAB]), IRA)
+//@   ensures [C01][C12] IR.OpMode <= 6 ==> s.mem[WAB] == movSpec(IR.OpMode, old(s.mem[WAB]), IRA)
 
 //@ func (*reportSim).add
 //@   panics [C04]
@@ -178,7 +178,7 @@ package gmars
 //@   ensures [C04] qStep(w.pq, s.m)
 //@   ensures qPushed(w.pq, (PC + 1) % s.m)
 //@   ensures [C04] wfI(old(s.mem[WAB]), s.m) ==> wfI(s.mem[WAB], s.m)
-//@   ensures [C01] IR.OpMode <= 6 && funcM(s) && wfI(IRA, s.m) && wfI(IRB, s.m) ==> s.mem[WAB] == arithSpec(ADD, IR.OpMode, old(s.mem[WAB]), IRA, IRB, s.m)
+//@   ensures [C01][C12] IR.OpMode <= 6 && funcM(s) && wfI(IRA, s.m) && wfI(IRB, s.m) ==> s.mem[WAB] == arithSpec(ADD, IR.OpMode, old(s.mem[WAB]), IRA, IRB, s.m)
 
 //@ func (*reportSim).sub
 //@   panics [C04]
@@ -189,7 +189,7 @@ package gmars
 //@   ensures [C04] qStep(w.pq, s.m)
 //@   ensures qPushed(w.pq, (PC + 1) % s.m)
 //@   ensures [C04] wfI(old(s.mem[WAB]), s.m) ==> wfI(s.mem[WAB], s.m)
-//@   ensures [C01] IR.OpMode <= 6 && funcM(s) && wfI(IRA, s.m) && wfI(IRB, s.m) ==> s.mem[WAB] == arithSpec(SUB, IR.OpMode, old(s.mem[WAB]), IRA, IRB, s.m)
+//@   ensures [C01][C12] IR.OpMode <= 6 && funcM(s) && wfI(IRA, s.m) && wfI(IRB, s.m) ==> s.mem[WAB] == arithSpec(SUB, IR.OpMode, old(s.mem[WAB]), IRA, IRB, s.m)
 
 //@ func (*reportSim).mul
 //@   panics [C04]
@@ -200,7 +200,7 @@ package gmars
 //@   ensures [C04] qStep(w.pq, s.m)
 //@   ensures qPushed(w.pq, (PC + 1) % s.m)
 //@   ensures [C04] wfI(old(s.mem[WAB]), s.m) ==> wfI(s.mem[WAB], s.m)
-//@   ensures [C01] IR.OpMode <= 6 && funcM(s) && wfI(IRA, s.m) && wfI(IRB, s.m) ==> s.mem[WAB] == arithSpec(MUL, IR.OpMode, old(s.mem[WAB]), IRA, IRB, s.m)
+//@   ensures [C01][C12] IR.OpMode <= 6 && funcM(s) && wfI(IRA, s.m) && wfI(IRB, s.m) ==> s.mem[WAB] == arithSpec(MUL, IR.OpMode, old(s.mem[WAB]), IRA, IRB, s.m)
 
 //@ func (*reportSim).div
 //@   panics [C04]
@@ -210,8 +210,8 @@ package gmars
 //@   ensures [C02] s.popW == old(s.popW)
 //@   ensures [C04] qStep(w.pq, s.m)
 //@   ensures [C04] pqInv(w.pq) && qFrame(w.pq) && (wfI(IRB, s.m) && wfI(IRA, s.m) && wfI(old(s.mem[WAB]), s.m) ==> wfI(s.mem[WAB], s.m))
-//@   ensures [C01] IR.OpMode <= 6 ==> s.mem[WAB] == divSpec(DIV, IR.OpMode, old(s.mem[WAB]), IRA, IRB, s.m)
-//@   ensures [C01] IR.OpMode <= 6 ==> ite(divDies(IR.OpMode, IRA), qSame(w.pq), qPushed(w.pq, (PC + 1) % s.m))
+//@   ensures [C01][C12] IR.OpMode <= 6 ==> s.mem[WAB] == divSpec(DIV, IR.OpMode, old(s.mem[WAB]), IRA, IRB, s.m)
+//@   ensures [C01][C12] IR.OpMode <= 6 ==> ite(divDies(IR.OpMode, IRA), qSame(w.pq), qPushed(w.pq, (PC + 1) % s.m))
 //@   ensures IR.OpMode > 6 ==> qPushed(w.pq, (PC + 1) % s.m)
 
 //@ func (*reportSim).mod
@@ -222,8 +222,8 @@ package gmars
 //@   ensures [C02] s.popW == old(s.popW)
 //@   ensures [C04] qStep(w.pq, s.m)
 //@   ensures [C04] pqInv(w.pq) && qFrame(w.pq) && (wfI(IRB, s.m) && wfI(IRA, s.m) && wfI(old(s.mem[WAB]), s.m) ==> wfI(s.mem[WAB], s.m))
-//@   ensures [C01] IR.OpMode <= 6 ==> s.mem[WAB] == divSpec(MOD, IR.OpMode, old(s.mem[WAB]), IRA, IRB, s.m)
-//@   ensures [C01] IR.OpMode <= 6 ==> ite(divDies(IR.OpMode, IRA), qSame(w.pq), qPushed(w.pq, (PC + 1) % s.m))
+//@   ensures [C01][C12] IR.OpMode <= 6 ==> s.mem[WAB] == divSpec(MOD, IR.OpMode, old(s.mem[WAB]), IRA, IRB, s.m)
+//@   ensures [C01][C12] IR.OpMode <= 6 ==> ite(divDies(IR.OpMode, IRA), qSame(w.pq), qPushed(w.pq, (PC + 1) % s.m))
 //@   ensures IR.OpMode > 6 ==> qPushed(w.pq, (PC + 1) % s.m)
 
 //@ func (*reportSim).jmz
@@ -233,7 +233,7 @@ package gmars
 //@   ensures [C15] noTouch(s) && s.wtermCount == old(s.wtermCount) && s.ttermCount == old(s.ttermCount) + 0
 //@   ensures [C02] s.popW == old(s.popW)
 //@   ensures [C04] qStep(w.pq, s.m)
-//@   ensures [C01] IR.OpMode <= 6 ==> qPushed(w.pq, ite(allZero(IR.OpMode, IRB), RAB, (PC + 1) % s.m))
+//@   ensures [C01][C12] IR.OpMode <= 6 ==> qPushed(w.pq, ite(allZero(IR.OpMode, IRB), RAB, (PC + 1) % s.m))
 //@   ensures IR.OpMode > 6 ==> qSame(w.pq)
 
 //@ func (*reportSim).jmn
@@ -244,7 +244,7 @@ package gmars
 //@   ensures [C02] s.popW == old(s.popW)
 //@   ensures [C04] qStep(w.pq, s.m)
 //@   ensures [C04] pqInv(w.pq) && qFrame(w.pq)
-//@   ensures [C01] IR.OpMode <= 6 ==> qPushed(w.pq, ite(allZero(IR.OpMode, IRB), (PC + 1) % s.m, RAB))
+//@   ensures [C01][C12] IR.OpMode <= 6 ==> qPushed(w.pq, ite(allZero(IR.OpMode, IRB), (PC + 1) % s.m, RAB))
 //@   ensures IR.OpMode > 6 ==> qSame(w.pq)
 
 //@ func (*reportSim).djn
@@ -255,8 +255,8 @@ package gmars
 //@   ensures [C02] s.popW == old(s.popW)
 //@   ensures [C04] qStep(w.pq, s.m)
 //@   ensures [C04] pqInv(w.pq) && qFrame(w.pq) && (wfI(old(s.mem[WAB]), s.m) ==> wfI(s.mem[WAB], s.m))
-//@   ensures [C01] IR.OpMode <= 6 && funcM(s) && wfI(old(s.mem[WAB]), s.m) ==> s.mem[WAB] == djnSpec(IR.OpMode, old(s.mem[WAB]), s.m)
-//@   ensures [C01] IR.OpMode <= 6 ==> qPushed(w.pq, ite(djnJumps(IR.OpMode, IRB), RAB, (PC + 1) % s.m))
+//@   ensures [C01][C12] IR.OpMode <= 6 && funcM(s) && wfI(old(s.mem[WAB]), s.m) ==> s.mem[WAB] == djnSpec(IR.OpMode, old(s.mem[WAB]), s.m)
+//@   ensures [C01][C12] IR.OpMode <= 6 ==> qPushed(w.pq, ite(djnJumps(IR.OpMode, IRB), RAB, (PC + 1) % s.m))
 //@   ensures IR.OpMode > 6 ==> qPushed(w.pq, (PC + 1) % s.m)
 
 //@ func (*reportSim).cmp
@@ -267,7 +267,7 @@ package gmars
 //@   ensures [C02] s.popW == old(s.popW)
 //@   ensures [C15] w.pq.length == old(w.pq.length) + ite(old(w.pq.length) < w.pq.size, 1, 0)
 //@   ensures [C04] qStep(w.pq, s.m)
-//@   ensures [C01] IR.OpMode <= 6 && funcM(s) ==> qPushed(w.pq, ite(cmpAll(IR.OpMode, IRA, IRB), (PC + 2) % s.m, (PC + 1) % s.m))
+//@   ensures [C01][C12] IR.OpMode <= 6 && funcM(s) ==> qPushed(w.pq, ite(cmpAll(IR.OpMode, IRA, IRB), (PC + 2) % s.m, (PC + 1) % s.m))
 //@   ensures IR.OpMode > 6 ==> qPushed(w.pq, (PC + 1) % s.m)
 
 //@ func (*reportSim).sne
@@ -278,7 +278,7 @@ package gmars
 //@   ensures [C02] s.popW == old(s.popW)
 //@   ensures [C15] w.pq.length == old(w.pq.length) + ite(old(w.pq.length) < w.pq.size, 1, 0)
 //@   ensures [C04] qStep(w.pq, s.m)
-//@   ensures [C01] IR.OpMode <= 6 && funcM(s) ==> qPushed(w.pq, ite(cmpAll(IR.OpMode, IRA, IRB), (PC + 1) % s.m, (PC + 2) % s.m))
+//@   ensures [C01][C12] IR.OpMode <= 6 && funcM(s) ==> qPushed(w.pq, ite(cmpAll(IR.OpMode, IRA, IRB), (PC + 1) % s.m, (PC + 2) % s.m))
 //@   ensures IR.OpMode > 6 ==> qPushed(w.pq, (PC + 1) % s.m)
 
 //@ func (*reportSim).slt
@@ -289,7 +289,7 @@ package gmars
 //@   ensures [C02] s.popW == old(s.popW)
 //@   ensures [C15] w.pq.length == old(w.pq.length) + ite(old(w.pq.length) < w.pq.size, 1, 0)
 //@   ensures [C04] qStep(w.pq, s.m)
-//@   ensures [C01] IR.OpMode <= 6 && funcM(s) ==> qPushed(w.pq, ite(sltAll(IR.OpMode, IRA, IRB), (PC + 2) % s.m, (PC + 1) % s.m))
+//@   ensures [C01][C12] IR.OpMode <= 6 && funcM(s) ==> qPushed(w.pq, ite(sltAll(IR.OpMode, IRA, IRB), (PC + 2) % s.m, (PC + 1) % s.m))
 //@   ensures IR.OpMode > 6 ==> qPushed(w.pq, (PC + 1) % s.m)
 
 // ---------------------------------------------------------------------------
@@ -374,7 +374,7 @@ package gmars
 //@   spec cB2 = opPost(cB1, PC, m, W, IR0.BMode, IR0.B)
 //@   ensures [C04] memOK(s) && s.mem == old(s.mem) && memWf(s)
 //@   ensures [C04] pqInv(w.pq) && qFrame(w.pq) && w.pq.length >= old(w.pq.length) && w.pq.length <= old(w.pq.length) + 2 && qAllBelow(w.pq, s.m)
-//@   ensures [C01] funcOK(s) ==>
+//@   ensures [C01][C12] funcOK(s) ==>
 //@      let WAB = (PC + wpb) % m in let RAB = (PC + rpa) % m in
 //@      let cF = cB2[WAB := opResult(IR0.Op, IR0.OpMode, cB2[WAB], ira, irb, m)] in
 //@      let n = nSucc(IR0.Op, IR0.OpMode, ira) in
@@ -397,7 +397,7 @@ package gmars
 //@   assert [C11] funcOK(s) ==> near(rpa, R, m) && near(rpb, R, m) && near(wpb, W, m)
 //@   assert [C15] (forall a :: 0 <= a && a < s.m && s.mem[a] != old(s.mem[a]) ==> s.touched[a] && s.touchW[a] == w.index) && s.wtermCount == old(s.wtermCount) && s.ttermCount == old(s.ttermCount)
 //@   assert [C02] s.popW == old(s.popW)
-//@   assert [C01] funcOK(s) ==> IRA == ira && IRB == irb && WPB == wpb && RPA == rpa && RPB == rpb && rpa < m && wpb < m && rpb < m && (forall a :: 0 <= a && a < m ==> s.mem[a] == cB2[a])
+//@   assert [C01][C12] funcOK(s) ==> IRA == ira && IRB == irb && WPB == wpb && RPA == rpa && RPB == rpb && rpa < m && wpb < m && rpb < m && (forall a :: 0 <= a && a < m ==> s.mem[a] == cB2[a])
 
 // ---------------------------------------------------------------------------
 // simulator data-structure invariant (C04): established by newReportSim, kept by every method
@@ -1038,6 +1038,7 @@ package gmars
 //@     decreases len(expr) + 1 - i
 //@   loop 2
 //@     invariant 0 <= i && i <= len(expr) && fresh(arr(out)) && i >= outer(i)
+//@     entry [C07] !negativeFound
 //@     backedge [C07] negativeFound == (iter(negativeFound) != (expr[iter(i)].val == "-"))
 //@     decreases len(expr) - i
 
@@ -1111,3 +1112,152 @@ package gmars
 //@   show ((PC + k) % m + 1) % m == ((PC + 1) % m + k) % m
 //@   show ((PC + k) % m + 2) % m == ((PC + 2) % m + k) % m
 //@   show ((PC + k) % m + rpa) % m == ((PC + rpa) % m + k) % m
+
+// ---------------------------------------------------------------------------
+// front end: panic freedom and loop termination of the state functions (C05). The dispatch loops
+// (state = state(x)), the goroutines and the channel protocol are outside the verified subset;
+// channel sends are treated as skips (a send on the open token channel neither panics nor changes
+// anything the sender reads).
+
+//@ extern iface:tokenReader.NextToken
+//@   modifies nothing
+
+//@ func (token).IsOp
+//@   panics [C05]
+//@   modifies nothing
+//@ func (token).IsAddressMode
+//@   panics [C05]
+//@   modifies nothing
+//@ func (token).NoOperandsOk
+//@   panics [C05]
+//@   modifies nothing
+//@ func (token).IsPseudoOp
+//@   panics [C05]
+//@   modifies nothing
+//@ func (token).IsExpressionTerm
+//@   panics [C05]
+//@   modifies nothing
+//@ func (token).String
+//@   panics [C05]
+//@   modifies nothing
+
+//@ func (*bufTokenReader).NextToken
+//@   panics [C05]
+//@   requires r != nil && 0 <= r.i
+//@   modifies r.i
+//@   ensures 0 <= r.i
+
+// parser
+//@ pure parserOK(p *parser) = p != nil && p.lex != nil && p.symbols != nil && p.references != nil
+//@ func (*parser).next
+//@   panics [C05]
+//@   requires parserOK(p)
+//@   modifies p.atEOF, p.nextToken, p.line
+//@   ensures parserOK(p)
+//@ func (*parser).loadPredefinedSymbols
+//@   panics [C05]
+//@   requires p != nil && p.symbols != nil
+//@   modifies p.symbols[*]
+//@ func (*parser).consumeEmitLine
+//@   panics [C05]
+//@   requires parserOK(p)
+//@   modifies p.*, p.lines[*]
+//@   ensures parserOK(p)
+//@ func parseLine
+//@   panics [C05]
+//@   requires parserOK(p)
+//@   modifies p.*, p.lines[*], p.symbols[*], p.references[*], p.currentLine.labels[*], p.currentLine.a[*], p.currentLine.b[*]
+//@   ensures parserOK(p)
+//@ func parseEmptyLines
+//@   panics [C05]
+//@   requires parserOK(p)
+//@   modifies p.*, p.lines[*], p.symbols[*], p.references[*], p.currentLine.labels[*], p.currentLine.a[*], p.currentLine.b[*]
+//@   ensures parserOK(p)
+//@ func parseComment
+//@   panics [C05]
+//@   requires parserOK(p)
+//@   modifies p.*, p.lines[*], p.symbols[*], p.references[*], p.currentLine.labels[*], p.currentLine.a[*], p.currentLine.b[*]
+//@   ensures parserOK(p)
+//@ func parseLabels
+//@   panics [C05]
+//@   requires parserOK(p)
+//@   modifies p.*, p.lines[*], p.symbols[*], p.references[*], p.currentLine.labels[*], p.currentLine.a[*], p.currentLine.b[*]
+//@   ensures parserOK(p)
+//@ func parseColon
+//@   panics [C05]
+//@   requires parserOK(p)
+//@   modifies p.*, p.lines[*], p.symbols[*], p.references[*], p.currentLine.labels[*], p.currentLine.a[*], p.currentLine.b[*]
+//@   ensures parserOK(p)
+//@ func parsePseudoOp
+//@   panics [C05]
+//@   requires parserOK(p)
+//@   modifies p.*, p.lines[*], p.symbols[*], p.references[*], p.currentLine.labels[*], p.currentLine.a[*], p.currentLine.b[*]
+//@   ensures parserOK(p)
+//@ func parsePseudoExpr
+//@   panics [C05]
+//@   requires parserOK(p)
+//@   modifies p.*, p.lines[*], p.symbols[*], p.references[*], p.currentLine.labels[*], p.currentLine.a[*], p.currentLine.b[*]
+//@   ensures parserOK(p)
+//@ func parseOp
+//@   panics [C05]
+//@   requires parserOK(p)
+//@   modifies p.*, p.lines[*], p.symbols[*], p.references[*], p.currentLine.labels[*], p.currentLine.a[*], p.currentLine.b[*]
+//@   ensures parserOK(p)
+//@ func parseModeA
+//@   panics [C05]
+//@   requires parserOK(p)
+//@   modifies p.*, p.lines[*], p.symbols[*], p.references[*], p.currentLine.labels[*], p.currentLine.a[*], p.currentLine.b[*]
+//@   ensures parserOK(p)
+//@ func parseExprA
+//@   panics [C05]
+//@   requires parserOK(p)
+//@   modifies p.*, p.lines[*], p.symbols[*], p.references[*], p.currentLine.labels[*], p.currentLine.a[*], p.currentLine.b[*]
+//@   ensures parserOK(p)
+//@ func parseComma
+//@   panics [C05]
+//@   requires parserOK(p)
+//@   modifies p.*, p.lines[*], p.symbols[*], p.references[*], p.currentLine.labels[*], p.currentLine.a[*], p.currentLine.b[*]
+//@   ensures parserOK(p)
+//@ func parseModeB
+//@   panics [C05]
+//@   requires parserOK(p)
+//@   modifies p.*, p.lines[*], p.symbols[*], p.references[*], p.currentLine.labels[*], p.currentLine.a[*], p.currentLine.b[*]
+//@   ensures parserOK(p)
+//@ func parseExprB
+//@   panics [C05]
+//@   requires parserOK(p)
+//@   modifies p.*, p.lines[*], p.symbols[*], p.references[*], p.currentLine.labels[*], p.currentLine.a[*], p.currentLine.b[*]
+//@   ensures parserOK(p)
+
+// symbol scanner
+//@ pure scannerOK(p *symbolScanner) = p != nil && p.lex != nil && p.symbols != nil
+//@ func (*symbolScanner).next
+//@   panics [C05]
+//@   requires scannerOK(p)
+//@   modifies p.atEOF, p.nextToken
+//@   ensures scannerOK(p)
+//@ func (*symbolScanner).consume
+//@   panics [C05]
+//@   requires scannerOK(p)
+//@   modifies p.atEOF, p.nextToken
+//@   ensures scannerOK(p)
+//@ func scanLine
+//@   panics [C05]
+//@   requires scannerOK(p)
+//@   modifies p.*, p.symbols[*], p.labelBuf[*], p.valBuf[*]
+//@   ensures scannerOK(p)
+//@ func scanLabels
+//@   panics [C05]
+//@   requires scannerOK(p)
+//@   modifies p.*, p.symbols[*], p.labelBuf[*], p.valBuf[*]
+//@   ensures scannerOK(p)
+//@ func scanConsumeLine
+//@   panics [C05]
+//@   requires scannerOK(p)
+//@   modifies p.*, p.symbols[*], p.labelBuf[*], p.valBuf[*]
+//@   ensures scannerOK(p)
+//@ func scanEquValue
+//@   panics [C05]
+//@   requires scannerOK(p)
+//@   modifies p.*, p.symbols[*], p.labelBuf[*], p.valBuf[*]
+//@   ensures scannerOK(p)
